@@ -1,5 +1,5 @@
 CONSTANTS
- N = 5
+ N = 4
  TxIns <- U_TxIns
  TxNOut <- U_TxNOut
  TxFee <- U_TxFee
@@ -10,30 +10,20 @@ CONSTANTS
  TxLock <- U_TxLock
  TxWit <- U_TxWit
  SlotParent <- U_SlotParent
- NFund = 3
+ NFund = 1
  Maturity = 1
  RejectRepl = FALSE
- MaxOrphans = 0
+ MaxOrphans = 1
  MaxOrphanSize = 1000
  MinRelayFee = 1000
  FreeLimit = 275
  MaxEvict = 100
- MaxBlockTxs = 1
+ MaxBlockTxs = 2
  MaxReorgTxs = 0
  Standalone = FALSE
  DisconnectEvicts = TRUE
  Standard = FALSE
  Script <- U_Script
- TxWeight <- U_TxWeight
- TxSigCost <- U_TxSigCost
- Policies <- U_Policies
- Variants <- U_Variants
- CbWeight <- U_CbWeight
- H0 = 2
- HardDiff = FALSE
- CommitWeight = 224
 INIT Init
 NEXT Next
 INVARIANT Inv
-INVARIANT AlgoSound
-INVARIANT AlgoComplete
